@@ -2,7 +2,7 @@
    Isotherm methods are finite tables of the implementation's own spreading_pressure_at / loading_at values;
    the root finder is replaced by the (success, x) the real scipy call returned. Only small integers are printed. *)
 From Coq Require Import QArith Qabs ZArith String List Bool.
-From PG Require Import Lib.Num Lib.Py Lib.Show Iast.IastGlue.
+From PG Require Import Lib.Num Lib.Py Lib.Show Iast.IastGlue Iast.IastWrapPre Gen.IastWrapGen.
 Import ListNotations.
 Open Scope Z_scope.
 
@@ -47,15 +47,22 @@ Definition cmp_rev (cs : list (icomp QNum)) (xs : list (Z * Z)) (P : Z * Z) (gue
    match r with Ok (yf, _) => b2z (abs_close (1 # 1000000000) yf (fls ys)) | Err _ => 1 end,
    b2z (abs_close (fl (fst scale) (snd scale) * (1 # 1000000000)) (rev_residual QNum cs Pq xsq (fls yr)) (fls resid)),
    match r with Ok (_, ns) => b2z (abs_close (fl (fst nscale) (snd nscale) * (1 # 1000000000)) ns (fls loads)) | Err _ => 1 end).
-(* wrappers: the point calculation is a table keyed by the first partial pressure *)
-Fixpoint ptbl (rows : list ((Z * Z) * res (list (Z * Z)))) (ps : list Q) : res (list Q) :=
-  match rows, ps with
-  | ((km, ke), v) :: r, p :: _ => if close_q 1 1000000000000 p (fl km ke) then res_map fls v else ptbl r ps
-  | _, _ => Err KeyError end.
-Definition cmp_svp (cs : list (icomp QNum)) (rows : list ((Z * Z) * res (list (Z * Z)))) (ys Ps : list (Z * Z)) (oc : Z) (sel : list (Z * Z)) : Z * Z * Z :=
-  let r := iast_binary_svp QNum (ptbl rows) cs (fls ys) (fls Ps) in
-  (code r, b2z (oc =? code r), match r with Ok s => b2z (all_close 1 1000000000 s sel) | Err _ => 1 end).
-Definition cmp_vle (cs : list (icomp QNum)) (rows : list ((Z * Z) * res (list (Z * Z)))) (P : Z * Z) (ygrid : list (Z * Z)) (oc : Z) (xs ys : list (Z * Z)) : Z * Z * Z :=
-  let r := iast_binary_vle QNum (ptbl rows) cs (fl (fst P) (snd P)) (fls ygrid) in
+(* wrappers: the GENERATED definitions (Gen/IastWrapGen.v) are executed; the point calculation is a table of what iast_point itself returned
+   (or raised) for the partial-pressure vectors of the sweep, keyed by the WHOLE vector; numpy.linspace is the grid the code produced *)
+Fixpoint ptbl (rows : list (list (Z * Z) * res (list (Z * Z)))) (ps : list Q) : res (list Q) :=
+  match rows with
+  | (k, v) :: r => if all_close 1 1000000000000 ps k then res_map fls v else ptbl r ps
+  | [] => Err KeyError end.
+Definition const_grid (g : list Q) : Q -> Q -> nat -> list Q := fun _ _ _ => g.
+(* iast_point_fraction: (model outcome, outcome agrees, returned loadings agree) *)
+Definition cmp_frac (rows : list (list (Z * Z) * res (list (Z * Z)))) (ys : list (Z * Z)) (P : Z * Z) (oc : Z) (nscale : Z * Z) (loads : list (Z * Z)) : Z * Z * Z :=
+  let r := G_iast_point_fraction QNum (ptbl rows) (fls ys) (fl (fst P) (snd P)) in
+  (code r, b2z (oc =? code r),
+   match r with Ok ns => b2z (abs_close (fl (fst nscale) (snd nscale) * (1 # 1000000000)) ns (fls loads)) | Err _ => 1 end).
+Definition cmp_svp (cs : list (icomp QNum)) (rows : list (list (Z * Z) * res (list (Z * Z)))) (ys Ps : list (Z * Z)) (oc : Z) (pout sel : list (Z * Z)) : Z * Z * Z :=
+  let r := G_iast_binary_svp QNum (ptbl rows) cs (fls ys) (fls Ps) in
+  (code r, b2z (oc =? code r), match r with Ok (p, s) => b2z (all_close 1 1000000000 p pout && all_close 1 1000000000 s sel) | Err _ => 1 end).
+Definition cmp_vle (cs : list (icomp QNum)) (rows : list (list (Z * Z) * res (list (Z * Z)))) (P : Z * Z) (ygrid : list (Z * Z)) (oc : Z) (xs ys : list (Z * Z)) : Z * Z * Z :=
+  let r := G_iast_binary_vle QNum (ptbl rows) (const_grid (fls ygrid)) cs (fl (fst P) (snd P)) (length ygrid) in
   (code r, b2z (oc =? code r),
    match r with Ok (x, y) => b2z (all_close 1 1000000000 x xs && all_close 1 1000000000 y ys) | Err _ => 1 end).
